@@ -34,4 +34,29 @@ def judgeSoftGet (hard : Nat) (srcs : List SrcObs) (g : GetObs) : Option String 
 def judgeSoft (hard : Nat) (srcs : List SrcObs) (gets : List GetObs) : Option String :=
   gets.findSome? (judgeSoftGet hard srcs)
 
+/-! ### size and LRU bookkeeping
+
+After every segment (of a client operation or of a background refresh): the cache holds at most
+`cache_capacity` entries (`get_cached_keys()`), and the keys its LRU bookkeeping tracks are exactly
+the keys it holds — an entry outside the bookkeeping can never be chosen as a victim.  Both key lists
+arrive sorted. -/
+
+structure SoftObs where
+  cached : List Key
+  order : List Key
+deriving Repr
+
+def judgeSoftObs (cap : Option Nat) (obs : List SoftObs) : Option String :=
+  obs.findSome? fun o =>
+    if (match cap with | some c => decide (c < o.cached.length) | none => false) then
+      some "softttl/size/exceeds-capacity"
+    else if o.order != o.cached then some "softttl/keys/lru-ne-cache"
+    else none
+
+def judgeSoftAll (hard : Nat) (cap : Option Nat) (srcs : List SrcObs) (gets : List GetObs) (obs : List SoftObs) :
+    Option String :=
+  match judgeSoftObs cap obs with
+  | some s => some s
+  | none => judgeSoft hard srcs gets
+
 end HappyModel.C16
